@@ -184,7 +184,7 @@ def gillespie_stage1(rec, netname, spacedesc, chem=None, fields=("state", "k", "
                    lambda m, ch=ch: rec.violation("gillespie-stale-propensity:%s:%s" % (netname, ch[0]),
                                                   "ComputePropensities does not recompute the propensity of channel %s from the state: a value left by an earlier step survives (%s)" % (ch, desc),
                                                   {"structure": desc, "channel": list(ch), "model": str(m)[:600]},
-                                                  replayed=audit_finds(system, "gillespie", "illegal-event") or audit_finds(system, "gillespie", "noop-event") or _audit_sparse(system)))
+                                                  replayed=audit_finds(system, "gillespie", "illegal-event") or audit_finds(system, "gillespie", "noop-event") or _audit_sparse(system) or _audit_empty_source(system)))
             got = tab[ch]
             if not is_sym(got) and got == 0:
                 facts["zero"].add(ch)
@@ -215,7 +215,7 @@ def gillespie_stage1(rec, netname, spacedesc, chem=None, fields=("state", "k", "
             def _sums_violation(m, which):
                 rec.violation("gillespie-sums:%s" % netname, "the %s of the Gillespie engine is not the sum of the per-channel propensities it walks through when it picks the event: "
                               "channels listed after the discrepancy are drawn with the wrong probability or never (%s)" % (which, desc),
-                              {"structure": desc, "model": str(m)[:500]}, replayed=_audit_starved(system))
+                              {"structure": desc, "model": str(m)[:500]}, replayed=_audit_starved(system) or _audit_empty_source(system))
             s1, _ = _prove(rec, I, "cell %d reaction partial sum" % i, I.toreal(a0r[i]) == sr, desc, lambda m, i=i: _sums_violation(m, "reaction partial sum of cell %d" % i))
             s2, _ = _prove(rec, I, "cell %d diffusion partial sum" % i, I.toreal(a0d[i]) == sd, desc, lambda m, i=i: _sums_violation(m, "diffusion partial sum of cell %d" % i))
             ok = ok and s1 == "holds" and s2 == "holds"
@@ -687,6 +687,35 @@ def _audit_starved(system):
         return False
     except Exception:
         return False
+
+
+_AES = {}
+
+
+def _audit_empty_source(system):
+    """replay for propensities that are not recomputed / not summed in a cell holding NO molecule at all: a zero-order source
+    ( -> A, k V = 40 per unit time) in a space of the system's type that starts EMPTY must produce molecules (the chance of no event
+    within t = 10 is e^-800); on a build that skips empty cells the run ends at once with nothing created"""
+    kind = "grid" if hasattr(system.space, "w") else "graph"
+    if kind in _AES:
+        return _AES[kind]
+    try:
+        from strengths import RDNetwork, Species, Reaction, RDSystem, RDGridSpace, RDGraphSpace
+        from strengths.rdgraphspace import RDGraphSpaceNode as N_, RDGraphSpaceEdge as E_
+        from .enginelegs import real_run
+        net = RDNetwork(species=[Species("A", D=1.0), Species("B", D=1.0)], reactions=[Reaction(" -> A", kf=5.0), Reaction("A -> B", kf=0.1)])
+        space = RDGridSpace(w=2, h=1, d=1, cell_vol=8.0) if kind == "grid" else RDGraphSpace(nodes=[N_(8.0, 0), N_(8.0, 0)], edges=[E_(0, 1, 1.0, 1.0)])
+        sysm = RDSystem(net, space, state=[0.0] * 4)
+        dead = 0
+        for seed in (1, 2, 3):
+            script = make_script(sysm, "gillespie", 0.015625, policy="on_iteration", t_sample=(0,), t_max=10.0, isp="none", seed=seed)
+            data, ts = real_run(script, "gillespie", 200)
+            if len(ts) <= 1 or sum(data[-4:]) == 0:
+                dead += 1
+        _AES[kind] = dead == 3
+    except Exception:
+        _AES[kind] = False
+    return _AES[kind]
 
 
 def _audit_sparse(system):
